@@ -416,7 +416,7 @@ def wide_node(rng, var_pool, head=None, arity=None, kind=None):
     return (head, ops)
 
 
-def large_cases(rng, count, max_arity=40, chains=True):
+def large_cases(rng, count, max_arity=40, chains=True, max_chain=130):
     """(expression, point) pairs that are LARGE in some direction: wide sums and products (bare and under a parent with a
     domain condition), at generic points, at points where one factor of a product is exactly zero, where a sum is
     exactly 0 or 1; deep towers of odd roots whose indices multiply beyond 2^53; long operator-like chains"""
@@ -453,7 +453,7 @@ def large_cases(rng, count, max_arity=40, chains=True):
                 out.append((e, [(k_, xv) for k_ in pool]))
         elif chains:
             # long left-nested chains, as a running total built with + or * produces them
-            L = rng.choice([30, 60, 101, 130])
+            L = rng.choice([c_ for c_ in (30, 60, 101, 130) if c_ <= max_chain] or [30])
             h = rng.choice(['Add', 'Mul'])
             t = ('V', pool[0])
             for i in range(L):
